@@ -221,7 +221,10 @@ class Src:
             if j >= hi:
                 continue
             header = re.sub(r'\s+', '', t[m.start():j])
-            if want in header:
+            pos = header.find(want)
+            while pos > 0 and (header[pos - 1].isalnum() or header[pos - 1] == '_'):
+                pos = header.find(want, pos + 1)
+            if pos >= 0:
                 if k == nth:
                     close = match_close(t, self.mask, j)
                     return (self._attr_start(m.start(), lo), j, close)
